@@ -19,6 +19,14 @@ class Decoder16b(Decoder):
                         w:int, h:int,
                         padding_w:int, padding_h:int,
                         width:int, w_size:int) -> bytes:
+        # The image starts at (padding_w, padding_h) of the canvas: its scan
+        # lines hold w - padding_w pixels and there are h - padding_h of them
+        canvas_w = w
+        canvas_h = h
+        w = w - padding_w
+        h = h - padding_h
+        width = w*2
+
         # Create a white image
         data = bytearray(width * h)
         logging.debug("w: %d witdh: %d", w, width)
@@ -87,11 +95,11 @@ class Decoder16b(Decoder):
         w1 = w
         w0 = 0
         # Every row of a BMP image starts at a multiple of four bytes
-        stride = w2 + (w2%4)
-        dataMix = bytearray(stride * h)
+        stride = canvas_w*2 + ((canvas_w*2)%4)
+        dataMix = bytearray(stride * canvas_h)
         for y in range(0, h):
             yw2 = y*w2
-            ys = y*stride
+            ys = y*stride + padding_w*2
             for x in range(0, w):
                 psu = yw2 + w1 + x
                 pdu = ys + x*2 + 0
